@@ -29,7 +29,8 @@ CHECKS["C01"] = (MC,
     "Every pair reachable with <= 2 edit actions from six base templates (TLC-enumerated), random walks and unrelated "
     "pairs are diffed by the real notebook differ; TLC evaluates per event: round trip with the specification's own "
     "Patch (independent of nbdime's patch), nbdime's patch result, empty-iff-identical, and for a rotating subset the "
-    "diff/notebook read back from the files nbdiff and nbpatch wrote.",
+    "diff/notebook read back from the files nbdiff and nbpatch wrote. The diff is a value: clauses RepeatPatch / "
+    "DiffUnchangedByPatch require that applying it a second time gives the same notebook and that applying it leaves it unchanged.",
     "Trusted: harness/concretize.py (content tables, validated per notebook with nbformat), harness/encode.py, TLC. "
     "Bounded/sampled input space; no proof.", "DESIGN.md §5 C01")
 
@@ -41,13 +42,16 @@ CHECKS["C03"] = (MC,
     "Each merge call return is one trace event; a raised exception is an event the specification rejects (Completes), with the "
     "exception type and innermost nbdime frame as the identity of the failure. Triples come from TLC's exhaustive enumeration of "
     "one edit per side over six base templates plus random walks; a core subset runs all 280 CLI strategy combinations + "
-    "mergetool; git merge-file / diff3 / built-in are selected through a private PATH.", MERGE_NOTE, "DESIGN.md §5 C03")
+    "mergetool; git merge-file / diff3 / built-in are selected through a private PATH. Sweep: EVERY TLC-enumerated triple whose "
+    "two edits touch the same or adjacent positions is merged under three strategies and the ones that raise are forwarded to the "
+    "validation; per-output edits of one cell come from OutputEdits.tla.", MERGE_NOTE, "DESIGN.md §5 C03")
 CHECKS["C04"] = (MC,
     "same events as C03; TLC clause ValidNb on the logged verdict of the JSON schema of the declared minor (no normalisation); "
     "nbmerge --out files validated too",
     "Every merged notebook of the C03 space (bases of minors 0/2/4/5, conflicts of every kind the edit actions produce) is "
     "validated against the schema of the minor it declares, strictly (nbformat's validate() would silently add missing ids). "
-    "A subset goes through nbmerge --out and the file on disk is validated.", MERGE_NOTE, "DESIGN.md §5 C04")
+    "A subset goes through nbmerge --out and the file on disk is validated. Clause UniqueCellIds: a notebook that declares 4.5 "
+    "has no two cells with one id (the format's rule the JSON schema cannot state). Sweep as in C03 with the screen 'invalid'.", MERGE_NOTE, "DESIGN.md §5 C04")
 CHECKS["C05"] = (MC,
     "TLC model checking of MergeAlgo.tla (TLA+ transcription of nbdime's list differ and list/object merge: the laws hold for every "
     "triple of the universe; its decisions are compared with nbdime's, drift 0) + "
